@@ -126,6 +126,16 @@ CLAIMED['C18'] = dict(
     technique='lemma harnesses with the contract clauses over symbolic floats on extracted real bodies (CBMC SAT / cvc5); complete native enumeration of the rgb8 domain',
     design='4/C18')
 
+CLAIMED['C17'] = dict(
+    text='Samplers only. Proof over the real bodies of iround/ifloor (float, double), sample(nearest_neighbor_sampler) and sample(bilinear_sampler) for every '
+         'sample point |p| <= 10^6 and every view size up to 10^5 x 10^5 (incl. empty and 1-pixel-wide/high): a point reported outside leaves the result '
+         'untouched; inside => 1, 2 or 4 source pixels are read, all INSIDE the source view, all among the pixels surrounding the point, every weight in '
+         '[0,1]; at integer coordinates the total weight is exactly 1; nearest reads the nearest pixel.',
+    note=TRUST + 'Weights summing to 1 for arbitrary points is proved only in the thorough tier (float products); resample_pixels driver, resize_view identity, '
+         'matrix3x2 algebra and lanczos scaling are not covered. Locator moves and pixel accumulation are the ghost ACCUM model.',
+    technique='lemma harnesses with contract clauses over symbolic floats on extracted real bodies (CBMC, loop-free => complete), ghost accumulation monitor with ACCESS preconditions',
+    design='4/C17')
+
 NOT_APPLICABLE = {
     'C12': 'relates two whole template pipelines through a file/stream and external C libraries; no function contract within reach of a C verifier states what read_image returns after write_view (DESIGN 5)',
     'C13': 'equality of results of different compositions of reader classes/devices/policies over the same bytes is a relational property over I/O histories, not a pre/postcondition of an extractable function (DESIGN 5)',
